@@ -446,6 +446,31 @@ class Pools:
         return {"init": rng.choice(self.dinits), "ops": [rng.choice(self.dops) for _ in range(length)]}
 
 
+def search_case(rng):
+    """包含 / 寻找 for a dictionary that is an item of the list (directly or inside an item): the same pairs in another key order
+    is the same value; one value changed, a key missing or an extra key is not"""
+    ks = rng.sample(KEYS, rng.randrange(2, 5))
+    d = [(k, gen_val(rng, 1, True)) for k in ks]
+    item = D(d)
+    wrap = (lambda x: x) if rng.random() < 0.7 else (lambda x: L([N(7), x]))
+    init = [gen_scalar(rng) for _ in range(rng.randrange(0, 3))] + [wrap(item)] + [gen_scalar(rng) for _ in range(rng.randrange(0, 2))]
+    if rng.random() < 0.3:
+        init.append(wrap(D(list(reversed(d)))))
+    ops = []
+    for _ in range(rng.randrange(2, 5)):
+        perm = d[:]
+        rng.shuffle(perm)
+        r = rng.random()
+        if r < 0.15:
+            perm[rng.randrange(len(perm))] = (perm[0][0], N(4242))
+        elif r < 0.25:
+            perm = perm[1:]
+        elif r < 0.35:
+            perm.append(("zz", N(1)))
+        ops.append({"op": "meth", "m": rng.choice(["包含", "寻找"]), "args": [wrap(D(perm))]})
+    return {"init": init, "ops": ops, "src": "search"}
+
+
 def gen_key(rng):
     return rng.choice(KEYS[:5]) if rng.random() < 0.85 else rng.choice(KEYS)
 
@@ -919,6 +944,8 @@ def run(chk, replay=None):
         lists.append(pools.list_case(rng, rng.choice([3, 8, 15, 30, 60])))
     for _ in range(nd):
         dicts.append(pools.dict_case(rng, rng.choice([3, 8, 15, 30, 60])))
+    for _ in range(25 if quick else 300):
+        lists.append(search_case(rng))
     run_histories(chk, "list", lists)
     run_histories(chk, "dict", dicts)
     # programs
